@@ -61,13 +61,24 @@ def main():
         entry["reply"] = "(exit 1)"
         log(entry)
         save(st)
-        sys.stderr.write("%s: something went wrong\n" % cmd)
+        if cmd == "sbatch" and any(a.startswith("--dependency") for a in argv):
+            # what sbatch prints when it refuses a job because of its dependency list
+            sys.stderr.write("sbatch: error: Batch job submission failed: Job dependency problem\n")
+        elif cmd == "sbatch":
+            sys.stderr.write("sbatch: error: Batch job submission failed: Invalid account or account/partition combination specified\n")
+        else:
+            sys.stderr.write("%s: something went wrong\n" % cmd)
         sys.exit(1)
     if fault == "stderr_error":
         entry["reply"] = "(error: on stderr, exit 0)"
         log(entry)
         save(st)
-        sys.stderr.write("%s: error: Batch job submission failed: Invalid something\n" % cmd)
+        if cmd == "scancel":
+            # `scancel --verbose` announces the job first; the error line comes second and the exit status is 0
+            jid = argv[-1] if argv else "?"
+            sys.stderr.write("scancel: Terminating job %s\nscancel: error: Kill job error on job id %s: Invalid job id specified\n" % (jid, jid))
+        else:
+            sys.stderr.write("%s: error: Batch job submission failed: Invalid something\n" % cmd)
         sys.exit(0)
     out, err, code = handle(cmd, argv, stdin, st, fault)
     entry["reply"] = out
@@ -141,7 +152,7 @@ def handle(cmd, argv, stdin, st, fault):
         j = jobs.get(jid)
         if j is None or j["state"] not in ("pending", "running"):
             if cmd == "scancel":
-                return "", "scancel: error: Kill job error on job id %s: Invalid job id specified\n" % jid, 0
+                return "", "scancel: Terminating job %s\nscancel: error: Kill job error on job id %s: Invalid job id specified\n" % (jid, jid), 0
             if cmd == "qdel":
                 return "", "denied: job \"%s\" does not exist\n" % jid, 1
             return "", "Job <%s>: No matching job found\n" % jid, 255
